@@ -156,6 +156,22 @@ pub open spec fn lr_iter<S, T, R, N, A: ParserAction<S, R>>(tb: Tables<S, T, R, 
         }
     }
 }
+/// the input `accepts` simulates: the single lookahead token, or nothing at end of input
+pub open spec fn one_tok<T>(o: Option<T>) -> Seq<Tk<T>> {
+    match o { Some(i) => seq![Tk::Idx(i)], None => Seq::<Tk<T>>::empty() }
+}
+/// what `accepts` must answer when the machine, run on the single lookahead (or on end of input), gets to `step`:
+/// yes once the lookahead has been shifted or the input accepted, no when the machine reports an error first
+pub open spec fn accepts_outcome<S>(step: Step<S>) -> Option<bool> {
+    match step {
+        Step::Next(_, pos) => if pos >= 1 { Some(true) } else { None },
+        Step::Stop(Out::Accepted) => Some(true),
+        Step::Stop(Out::Early) => Some(true),
+        Step::Stop(Out::UnrecTok(_)) => Some(false),
+        Step::Stop(Out::UnrecEof) => Some(false),
+        Step::Stop(Out::StreamErr(_)) => None,
+    }
+}
 /// the machine started in (st0, p0) stops with outcome o
 pub open spec fn lr_stops<S, T, R, N, A: ParserAction<S, R>>(tb: Tables<S, T, R, N, A>, toks: Seq<Tk<T>>, st0: Seq<S>, p0: int, o: Out) -> bool {
     exists|n: nat| #[trigger] lr_iter(tb, toks, st0, p0, n) == Step::<S>::Stop(o)
